@@ -36,6 +36,7 @@ type Eng struct {
 	funcs    map[string]*ssa.Function // key pkgpath.RelName (type params stripped), incl. closures
 	methIDs  map[string]int
 	implCache map[string][]types.Type
+	modTypes  []types.Type
 }
 
 func loadEngine(repo string) (*Eng, error) {
@@ -180,6 +181,33 @@ func (e *Eng) inModule(fn *ssa.Function) bool {
 	}
 	_, ok := e.pkgs[fn.Pkg.Pkg.Path()]
 	return ok
+}
+
+// allModuleTypes: every named non-interface type of the module, as value and pointer type.
+func (e *Eng) allModuleTypes() []types.Type {
+	if e.modTypes != nil {
+		return e.modTypes
+	}
+	var paths []string
+	for p := range e.pkgs {
+		paths = append(paths, p)
+	}
+	sort.Strings(paths)
+	for _, p := range paths {
+		scope := e.pkgs[p].Types.Scope()
+		for _, n := range scope.Names() {
+			tn, ok := scope.Lookup(n).(*types.TypeName)
+			if !ok || tn.IsAlias() {
+				continue
+			}
+			T := tn.Type()
+			if _, isI := T.Underlying().(*types.Interface); isI {
+				continue
+			}
+			e.modTypes = append(e.modTypes, T, types.NewPointer(T))
+		}
+	}
+	return e.modTypes
 }
 
 // ---- type helpers ----
@@ -384,6 +412,8 @@ type Task struct {
 	rndApps   [][2]string
 	pendingLets map[string]Val
 	modelNames map[string]string // get-value term -> witness name
+	nfn        int
+	lateFacts  []string          // facts about ghost identities: valid everywhere, added to every query
 }
 
 func newTask(e *Eng, name string) *Task {
@@ -709,7 +739,7 @@ func (t *Task) loadAt(s *State, prefix, path, ref, idx string, T types.Type) Val
 	case KSlice:
 		p := t.readLeaf(s, prefix, path+"#ptr", ref, idx, KRef)
 		l := t.readLeaf(s, prefix, path+"#len", ref, idx, KInt)
-		t.assume(s.pc, "(>= "+l+" 0)")
+		t.assume(s.pc, "(and (>= "+l+" 0) (<= "+l+" 4611686018427387904))")
 		return Val{K: KSlice, T: T, Fields: []Val{{K: KRef, S: p}, {K: KInt, S: l, T: types.Typ[types.Int]}}}
 	case KTuple, KUnit:
 		return Val{K: k, T: T}
@@ -717,6 +747,9 @@ func (t *Task) loadAt(s *State, prefix, path, ref, idx string, T types.Type) Val
 		x := t.readLeaf(s, prefix, path, ref, idx, k)
 		if k == KInt {
 			t.assume(s.pc, inRangeTerm(x, T))
+		}
+		if k == KFunc {
+			t.funcValFact(s.pc, x)
 		}
 		return Val{K: k, S: x, T: T}
 	}
@@ -808,7 +841,7 @@ func (t *Task) freshValue(pc, hint string, T types.Type) Val {
 	case KSlice:
 		p := t.fresh(hint+"#ptr", "Int")
 		l := t.fresh(hint+"#len", "Int")
-		t.assume(pc, "(>= "+l+" 0)")
+		t.assume(pc, "(and (>= "+l+" 0) (<= "+l+" 4611686018427387904))")
 		return Val{K: KSlice, T: T, Fields: []Val{{K: KRef, S: p}, {K: KInt, S: l, T: types.Typ[types.Int]}}}
 	case KTuple:
 		tu := T.Underlying().(*types.Tuple)
@@ -823,6 +856,9 @@ func (t *Task) freshValue(pc, hint string, T types.Type) Val {
 		x := t.fresh(hint, sortOfKind(k))
 		if k == KInt {
 			t.assume(pc, inRangeTerm(x, T))
+		}
+		if k == KFunc {
+			t.funcValFact(pc, x)
 		}
 		return Val{K: k, S: x, T: T}
 	}
